@@ -227,7 +227,7 @@ func plusSx(t *sx, d int) *sx {
 
 // instantiatedQuery renders the query for goal with engine-side instantiation.
 // It returns the script and the number of instances added.
-func (vc *VC) instantiatedQuery(mark int, goal Term, sliced bool) (string, int) {
+func (vc *VC) instantiatedQuery(mark int, goal Term, sliced bool, lean bool) (string, int) {
 	g := parseSx(goal.S)
 	var decls []string
 	// 1. skolemise the goal's positive universals
@@ -252,6 +252,29 @@ func (vc *VC) instantiatedQuery(mark int, goal Term, sliced bool) (string, int) 
 		seeds[s.String()] = s
 	}
 	collectIndexTerms(g, nil, seeds)
+	// arithmetic terms of the goal that contain a skolem (e.g. sk + d) are natural
+	// instantiation points for hypotheses over the same variable
+	skTerms := map[string][]*sx{}
+	var walkArith func(n *sx)
+	walkArith = func(n *sx) {
+		if n == nil || n.kids == nil {
+			return
+		}
+		if h := n.head(); h == "+" || h == "-" {
+			str := n.String()
+			if len(str) <= 220 {
+				for _, sk := range skolems {
+					if strings.Contains(str, sk.atom) {
+						skTerms[sk.atom] = append(skTerms[sk.atom], n)
+					}
+				}
+			}
+		}
+		for _, k := range n.kids {
+			walkArith(k)
+		}
+	}
+	walkArith(g)
 	// order seeds: skolems first, then by length; cap
 	var keys []string
 	for k := range seeds {
@@ -267,13 +290,14 @@ func (vc *VC) instantiatedQuery(mark int, goal Term, sliced bool) (string, int) 
 		}
 		return keys[i] < keys[j]
 	})
-	if len(keys) > 10 {
-		keys = keys[:10]
+	if len(keys) > 16 {
+		keys = keys[:16]
 	}
-	var seedList []*sx
+	var seedList, plainSeeds []*sx
 	for _, k := range keys {
 		t := seeds[k]
 		seedList = append(seedList, t, plusSx(t, 1), plusSx(t, -1))
+		plainSeeds = append(plainSeeds, t)
 	}
 	// 2. instantiate positive universals of the hypotheses
 	var extra []string
@@ -315,10 +339,21 @@ func (vc *VC) instantiatedQuery(mark int, goal Term, sliced bool) (string, int) 
 					parts := strings.SplitN(sk.atom, "!", 4) // sk!N!stem!qM
 					if len(parts) >= 3 && parts[2] == stem {
 						out = append(out, sk, plusSx(sk, 1), plusSx(sk, -1))
+						seen := map[string]bool{}
+						for _, t := range skTerms[sk.atom] {
+							if ts := t.String(); !seen[ts] && len(seen) < 6 {
+								seen[ts] = true
+								out = append(out, t)
+							}
+						}
 					}
 				}
-				if len(out) == 0 {
-					out = seedList
+				if len(out) == 0 && !lean {
+					if len(vars) > 1 {
+						out = plainSeeds
+					} else {
+						out = seedList
+					}
 				}
 				return out
 			}
@@ -327,18 +362,18 @@ func (vc *VC) instantiatedQuery(mark int, goal Term, sliced bool) (string, int) 
 					insts = append(insts, body.subst(map[string]*sx{vars[0]: t}))
 				}
 				// single-variable hypotheses are cheap: also use the general seeds
-				if len(seedsFor(vars[0])) != len(seedList) {
+				if !lean && len(seedsFor(vars[0])) != len(seedList) {
 					for _, t := range seedList {
 						insts = append(insts, body.subst(map[string]*sx{vars[0]: t}))
 					}
 				}
 			} else {
 				s1, s2 := seedsFor(vars[0]), seedsFor(vars[1])
-				if len(s1) > 9 {
-					s1 = s1[:9]
+				if len(s1) > 16 {
+					s1 = s1[:16]
 				}
-				if len(s2) > 9 {
-					s2 = s2[:9]
+				if len(s2) > 16 {
+					s2 = s2[:16]
 				}
 				for _, t1 := range s1 {
 					for _, t2 := range s2 {
@@ -347,6 +382,11 @@ func (vc *VC) instantiatedQuery(mark int, goal Term, sliced bool) (string, int) 
 				}
 			}
 			if len(insts) == 0 {
+				if lean {
+					// lean mode: a hypothesis without a matching skolem is dropped
+					n = replaceNode(n, q, atomSx("true"))
+					dropped[ai] = true
+				}
 				continue
 			}
 			conj := &sx{kids: append([]*sx{atomSx("and")}, insts...)}
